@@ -23,6 +23,11 @@ ASSUMPTIONS = [
     "blanks, names cut at their first '/'), which is the identity for well-formed names (C12_text_file) and reproduces the real "
     "behaviour for function names with '/' (C12_cex_slash_name); a function name with a blank is outside the model (compared up to the "
     "split, counted as unmodelled)",
+    "function names: besides names with '/', PAIRS of functions with different bodies whose names differ only in punctuation, in '_'/'-'/'.', "
+    "in letter case, in a non-ASCII letter, beyond the 40th character, or by a leading/trailing dot or dash are called in one run (flavour "
+    "names): each name has its own pysnark_eqs_<name> holding exactly its normalised equations and the schedule names, per call, the "
+    "files of ITS function; names holding a separator of the harness's own line protocol (one of | ; , @ ~ ^ = : #) are judged by the "
+    "direct oracle only (counted as unmodelled)",
     "guards: the worker reports runtime.guard (value and wire expression) before a call returns whenever it changed (event g:), the "
     "model's ensure_single writes the two extra lines of a guarded assertion; exceptions: the worker reports a body that raised (event "
     "a), the model pops the frame and keeps the context, as the code does; the context the backend is in after an exception was caught "
@@ -547,9 +552,65 @@ class Gen:
         return {"id": cid, "flavour": "raise", "funcs": {k: {"variants": v["variants"]} for k, v in self.funcs.items()}, "main": main,
                 "tags": sorted(self.tags)}
 
+    # ---- PAIRS of distinct function names that a file-name mapping could merge, both called in one run
+    SPECIAL = "+*-.:;,@#%&=!?~^()[]{}<>|'$`"
+    NAME_PAIRS = {
+        "punctuation": [("a+b", "a*b"), ("f(x)", "f[x]"), ("sq:1", "sq;1"), ("x@y", "x#y"), ("p%q", "p&q"), ("k=1", "k~1"), ("u!", "u?"),
+                        ("r<s", "r>s"), ("v|w", "v^w"), ("q'", "q`"), ("m$n", "m,n"), ("{t}", "(t)")],
+        "separator": [("a_b", "a-b"), ("a.b", "a_b"), ("a-b", "a.b"), ("a__b", "a_b"), ("lib.sq", "lib_sq"), ("x-1", "x_1")],
+        "case": [("Sq", "sq"), ("MUL", "mul"), ("dotProd", "dotprod"), ("aB", "Ab")],
+        "non-ascii": [("\u00e9t", "\u00e8t"), ("\u00fc1", "u1"), ("\u03b1", "\u03b2"), ("n\u00b2", "n\u00b3")],
+        "long": [("f" * 40 + "1", "f" * 40 + "2"), ("step_" * 12 + "a", "step_" * 12 + "b")],
+        "edge": [("f.", "f"), (".f", "f"), ("-f", "f"), ("f-", "f_"), ("~f", "f~")],
+    }
+
+    def name_pair(self):
+        rnd = self.rnd
+        fam = rnd.choice(list(self.NAME_PAIRS) + ["punctuation", "random"])
+        if fam == "random":
+            base = rnd.choice(["f", "sq", "lib", "m1", "dot"]); tail = rnd.choice(["", "x", "2", "_r"])
+            a, b = rnd.sample(self.SPECIAL, 2)
+            k = rnd.randrange(1, 3)
+            return "punctuation", (base + a * k + tail, base + b * k + tail)
+        pr = rnd.choice(self.NAME_PAIRS[fam])
+        return fam, (pr if rnd.random() < 0.5 else pr[::-1])
+
+    def name_pair_case(self, cid):
+        """two functions with DIFFERENT bodies (different numbers of products) whose names differ only in characters a
+        portable-file-name / case-folding / truncating mapping would merge; each called 1-2 times, interleaved"""
+        rnd = self.rnd
+        fam, names = self.name_pair()
+        self.tags.add("name:pair-" + fam)
+        for k, nm in enumerate(names):
+            nparams = rnd.randrange(1, 3)
+            regs = [Reg("L", 50) for _ in range(nparams)]; body = []
+            for j in range(k + 1):                          # k+1 products first: the equation sets of the two names differ
+                body.append(["mul", len(regs) - 1, 0]); regs.append(Reg("L", None))
+            self.ring_ops(regs, body, rnd.randrange(0, 3), True, True)
+            self.funcs[nm] = {"params": ["L"] * nparams,
+                              "variants": {"0": {"body": body, "ret": rnd.choice([i for i, r in enumerate(regs) if r.kind == "L" and i >= nparams])}}}
+            self.order.append(nm)
+        if rnd.random() < 0.3:
+            self.new_func(["L"], pure=True)                 # a bystander with an ordinary name
+        regs = []; main = []
+        for _ in range(rnd.randrange(1, 3)):
+            main.append(["priv", self.small()]); regs.append(Reg("L", 50))
+        seq = list(names) + [rnd.choice(self.order) for _ in range(rnd.randrange(0, 3))]
+        rnd.shuffle(seq)
+        for nm in seq:
+            self.ring_ops(regs, main, rnd.randrange(0, 2), False, True)
+            self.emit_call(regs, main, nm, False)
+        L = [i for i, r in enumerate(regs) if r.kind == "L"]
+        if L and rnd.random() < 0.7:
+            main.append(["val", rnd.choice(L)]); self.tags.add("op:val")
+        return {"id": cid, "flavour": "names", "funcs": {k: {"variants": v["variants"]} for k, v in self.funcs.items()}, "main": main,
+                "tags": sorted(self.tags)}
+
     # ---- function names containing the separator of the wire grammar
     def names_case(self, cid):
         rnd = self.rnd
+        if rnd.random() < 0.75:
+            return self.name_pair_case(cid)
         regs = []; main = []
         for _ in range(rnd.randrange(1, 3)):
             main.append(["priv", self.small()]); regs.append(Reg("L", 50))
@@ -619,7 +680,7 @@ class Gen:
 
 
 FLAVOURS = [("flat", 3), ("calls", 6), ("nested", 4), ("coef", 2), ("one-ctx", 2), ("kinds", 2), ("empty", 1), ("variants", 2), ("bigtail", 1),
-            ("dup", 5), ("guard", 4), ("raise", 3), ("names", 1), ("respace", 3)]
+            ("dup", 5), ("guard", 4), ("raise", 3), ("names", 4), ("respace", 3)]
 
 
 def corpus_dup():
@@ -693,6 +754,15 @@ def corpus():
         {"id": "corpus-name-slash", "flavour": "names", "tags": ["corpus"],
          "funcs": {"a/b": {"variants": {"0": {"body": [["mul", 0, 0]], "ret": 1}}}},
          "main": [["priv", 3], ["call", "a/b", "0", [0]], ["val", 1]]},
+        # two functions whose names differ only in punctuation / case, both called: each has its own per-function file
+        {"id": "corpus-name-pair-punct", "flavour": "names", "tags": ["corpus"],
+         "funcs": {"a+b": {"variants": {"0": {"body": [["add", 0, 1], ["mul", 2, 2]], "ret": 3}}},
+                   "a*b": {"variants": {"0": {"body": [["mul", 0, 1]], "ret": 2}}}},
+         "main": [["priv", 3], ["priv", -4], ["call", "a+b", "0", [0, 1]], ["call", "a*b", "0", [0, 1]], ["call", "a+b", "0", [2, 3]], ["val", 4]]},
+        {"id": "corpus-name-pair-case", "flavour": "names", "tags": ["corpus"],
+         "funcs": {"Sq": {"variants": {"0": {"body": [["mul", 0, 0]], "ret": 1}}},
+                   "sq": {"variants": {"0": {"body": [["mul", 0, 0], ["mul", 1, 0]], "ret": 2}}}},
+         "main": [["priv", 3], ["call", "Sq", "0", [0]], ["call", "sq", "0", [1]], ["val", 2]]},
         # one name, two bodies whose normalised texts differ only in where a blank sits: `1 11 * 1 1 = 1 12 .` / `11 1 * 1 1 = 1 12 .`
         {"id": "corpus-respace", "flavour": "respace", "tags": ["corpus"],
          "funcs": {"f": {"variants": {"0": {"body": [["priv", 2]] * 10 + [["muli", 10, 1], ["mul", 11, 0]], "ret": 12},
@@ -810,6 +880,7 @@ def prove_status(o):
     return f"other:{cls}:{msg[:80]}"
 
 
+PROTOCOL_RESERVED = "|;,@~^=:#"
 DIGEST = re.compile(r"id: (\S+) function: (\S+) digest: (\S+) #constraints: (\d+)")
 
 
@@ -823,6 +894,10 @@ def md5lines(ls):
 def correspond(o, m):
     """line-exact comparison of everything the real run wrote with the model's emission; returns list of differences"""
     diffs = []
+    if any(ch in c["fn"] for c in o["calls"] for ch in PROTOCOL_RESERVED):
+        # the function name holds a separator of the HARNESS's line protocol (not of pysnark's file grammar): the trace cannot be
+        # handed to the model; the direct oracle on the real files still judges the run (counted as unmodelled)
+        return [], True
     if m is None:
         return ["model could not parse the trace"], False
     F = o["files"]
@@ -1076,13 +1151,34 @@ def oracle(case, o):
     if st.startswith("inconsistent-functions") and not inconsistent:
         bad.append(({"clause": "same-function", "mode": "spurious"}, f"prove() reported {st} although all calls of every function have equal equation sets"))
     if not crashed and not mixed and not empty and not st.startswith("inconsistent-functions"):
+        # which files belong to which function is read from the schedule (the interface to the external tools), not assumed:
+        # `[function] <call> <eqs file> <ek file> <vk file>`; every function has files of its OWN
+        sched_files = {}
+        for l in body_lines(F.get("pysnark_schedule")) or []:
+            t = toks(l)
+            if t[0] == "[function]" and len(t) >= 5: sched_files[t[1]] = t[2:5]
+        owner = {}
         for fn, cl in fnames.items():
-            got = body_lines(F.get("pysnark_eqs_" + fn))
+            for call in cl:
+                for role, fname in zip(("equation", "evaluation-key", "verification-key"), sched_files.get(call, [])):
+                    other = owner.setdefault((role, fname), fn)
+                    if other != fn:
+                        bad.append(({"clause": "split-complete", "mode": "functions-share-file", "role": role},
+                                    f"the schedule names the {role} file {fname} for call {call} of `{fn}` and for calls of `{other}`: two "
+                                    f"functions with different names share one file"))
+            named = {sched_files[c][0] for c in cl if c in sched_files}
+            if len(named) > 1:
+                bad.append(({"clause": "schedule", "mode": "one-function-several-files"}, f"calls of `{fn}` are pointed at {sorted(named)}"))
+        bad[:] = [b for i, b in enumerate(bad) if b[0].get("mode") != "functions-share-file" or
+                  i == next(k for k, x in enumerate(bad) if x[0] == b[0])]
+        for fn, cl in fnames.items():
+            eqfile = next((sched_files[c][0] for c in cl if c in sched_files), "pysnark_eqs_" + fn)
+            got = body_lines(F.get(eqfile))
             if got is None:
                 on_disk_fn = disk is not None and any(toks(l)[:2] == ["[function]", fn] for l in disk)
-                bad.append(({"clause": "split-complete", "mode": "unflushed-tail" if not on_disk_fn else "no-file"}, f"no pysnark_eqs_{fn}")); continue
+                bad.append(({"clause": "split-complete", "mode": "unflushed-tail" if not on_disk_fn else "no-file"}, f"no {eqfile} (the per-function equation file of `{fn}`)")); continue
             if any("/" in l for l in got):
-                bad.append(({"clause": "split-context", "cause": "context-not-stripped"}, f"pysnark_eqs_{fn} names a context"))
+                bad.append(({"clause": "split-context", "cause": "context-not-stripped"}, f"{eqfile} names a context"))
             for call in cl:
                 exp = expected(call)
                 if fn in inconsistent:
@@ -1090,7 +1186,7 @@ def oracle(case, o):
                     missing = exp - Counter(got)
                     if missing:
                         bad.append(({"clause": "split-complete", "mode": "call-equations-missing", "cause": how[fn]},
-                                    f"pysnark_eqs_{fn} lacks {sum(missing.values())} line(s) traced by call {call} ({how[fn]} between the "
+                                    f"{eqfile} lacks {sum(missing.values())} line(s) traced by call {call} ({how[fn]} between the "
                                     f"calls of `{fn}`), e.g. {missing[next(iter(missing))]} x `{next(iter(missing))[:120]}`"))
                         break
                     continue
@@ -1102,11 +1198,11 @@ def oracle(case, o):
                     tail = Counter(strip_ctx(l) for l in eqs[len(disk) - (1 if torn is not None else 0):]) if disk is not None else Counter()
                     mode = "unflushed-tail" if missing and not extra and not (missing - tail) else "other"
                     bad.append(({"clause": "split-complete", "mode": mode},
-                                f"pysnark_eqs_{fn} vs call {call}: {sum(missing.values())} traced equation(s) missing, {sum(extra.values())} extra"
+                                f"{eqfile} (named by the schedule for `{fn}`) vs call {call}: {sum(missing.values())} traced equation(s) missing, {sum(extra.values())} extra"
                                 f"{' (and a line torn in the middle filed as an equation)' if torn is not None else ''}; e.g. {next(iter(missing or extra))[:120]}"))
                     break
             if got != sorted(got):
-                bad.append(({"clause": "split-complete", "mode": "not-normalised"}, f"pysnark_eqs_{fn} is not sorted"))
+                bad.append(({"clause": "split-complete", "mode": "not-normalised"}, f"{eqfile} is not sorted"))
             # every equation of the per-function file holds for every call of the function
             for call in cl:
                 for l in got:
@@ -1114,9 +1210,9 @@ def oracle(case, o):
                     try:
                         e = parse_eq(l, call)
                         if e[0] != "dir" and not eq_holds(e, val, p):
-                            bad.append(({"clause": "split-sat"}, f"`{l[:100]}` of pysnark_eqs_{fn} is not satisfied by the wires of call {call}")); break
+                            bad.append(({"clause": "split-sat"}, f"`{l[:100]}` of {eqfile} is not satisfied by the wires of call {call}")); break
                     except (KeyError, ValueError) as ex:
-                        bad.append(({"clause": "split-sat"}, f"`{l[:100]}` of pysnark_eqs_{fn} for call {call}: {type(ex).__name__} {ex}")); break
+                        bad.append(({"clause": "split-sat"}, f"`{l[:100]}` of {eqfile} for call {call}: {type(ex).__name__} {ex}")); break
         # digests: equal for equal names, printed for every call
         dg = {}
         for call, fn, hs, _ in DIGEST.findall(o.get("stderr", "")):
